@@ -121,7 +121,7 @@ fn max2(a: u8, b: u8) -> u8 {
 }
 
 //@ob C16.feed.FilterEntry
-//@ props: C16 C13 C20 C05
+//@ props: C16 C13 C20 C15 C05
 //@ kind: complete
 //@ fns: src/walk/mod.rs::FilterEntry::feed src/walk/mod.rs::FilterEntry::cancel_walk_tree src/walk/mod.rs::FileIterator::filter_entry src/walk/mod.rs::TreeResidue::from<EntryResidue> src/filter.rs::Separation::filter_tree_by_substituent src/filter.rs::Separation::transpose_filtrate
 //@ pre: one fed item in any state (filtrate Ok, node residue, tree residue, filtrate Err), any verdict of the user closure
